@@ -162,6 +162,8 @@ def make_data(n, seed, kind='noise'):
         y = y + float(kind[3:])
     elif kind.startswith('neg'):          # large negative offset
         y = y - float(kind[3:])
+    elif kind.startswith('scale'):        # overall magnitude: scale1e-300 ... scale1e160 (finite, possibly near the float range limits)
+        y = y * float(kind[5:])
     elif kind == 'tiny':
         y = y * 1e-8
     elif kind == 'huge':
@@ -248,6 +250,7 @@ def run_oracle(job):
                     res['n_tol'] = int(np.asarray(th).shape[0])
             except Exception as e:   # noqa
                 res['exc'] = type(e).__name__
+                res['exc_msg'] = str(e)[:120]
         out[key] = res
     return out
 
